@@ -143,7 +143,7 @@ def scan_template_exec(raw_text, where):
         frag = m.group(0)
         if frag.strip() == "fn main":
             continue
-        if not re.search(r"\b(spec|proof)\b", frag):
+        if not re.search(r"\b(spec|proof|axiom)\b", frag):
             raise ExtractError(f"{where}: template contains a hand-written exec fn: {frag.strip()!r}")
 
 
@@ -199,7 +199,7 @@ def apply_fn_subs(unit, item, pc, subs_for_fn, fnargs, owner, canary):
         elif sk == "loop":
             _, lkv = parse_kv(sargs[1:])
             rsx.splice_loop(item, pc, int(sargs[0]), text, iter_name=lkv.get("iter", [None])[0])
-        elif sk == "closure":
+        elif sk in ("closure", "foreach_loop"):
             pass
         elif sk == "hoist":
             # hoist <loop ordinal> "<literal>" as <name>
@@ -211,6 +211,11 @@ def apply_fn_subs(unit, item, pc, subs_for_fn, fnargs, owner, canary):
             rsx.splice_before(item, pc, unq(" ".join(sargs[1:])), int(sargs[0]), text, after=(sk == "after"))
         else:
             raise ExtractError(f"unknown sub-directive {sk}")
+    if "foreach" in fnargs:
+        # after the splices, so that ghost lines anchored at the end of the closure body land inside the loop body
+        fe = [(sa, ls) for (sk_, sa, ls) in subs_for_fn if sk_ == "foreach_loop"]
+        _, fkv = parse_kv(fe[0][0]) if fe else ([], {})
+        rsx.rule_foreach(item, pc, "\n".join(fe[0][1]) if fe else None, fkv.get("iter", [None])[0])
     t = item.src.toks
     pre = ""
     for a in kv.get("attr", []):
@@ -520,7 +525,7 @@ def classify(unit, res, unit_text):
             "errors": (js or {}).get("verification-results", {}).get("errors")}
 
 
-CHEATS = re.compile(r"\b(assume\s*\(|admit\s*\(|external_body|assume_specification|external_fn_specification|external_type_specification|#\[verifier::external\]|accept_recursive_types|exec_allows_no_decreases_clause)")
+CHEATS = re.compile(r"\b(assume\s*\(|admit\s*\(|axiom fn|external_body|assume_specification|external_fn_specification|external_type_specification|#\[verifier::external\]|accept_recursive_types|exec_allows_no_decreases_clause)")
 
 
 def scan_cheats(text, allow):
